@@ -1,4 +1,5 @@
 import IcyVerif.Model.IcyDraw
+import IcyVerif.Model.Unicode
 import IcyVerif.Drv.Util
 /-! Line-protocol handler for the IcyDraw model (C07).  Request lines start with `icydraw`. -/
 namespace IcyVerif.Drv.IcyDraw
@@ -56,7 +57,7 @@ def hex2 (n : Nat) : String := String.ofList [hexChar (n / 16 % 16), hexChar (n 
 def b01 (b : Bool) : String := if b then "1" else "0"
 
 def layerFields (l : Layer) : String :=
-  "T" ++ toHex l.title ++ " " ++ toString l.role ++ " " ++ toString l.mode ++ " " ++
+  "T" ++ toHex (IcyVerif.Uni.lossyBytes l.title) ++ " " ++ toString l.role ++ " " ++ toString l.mode ++ " " ++
   (match l.color with | some (r, g, b) => hex2 r ++ hex2 g ++ hex2 b | none => "-") ++ " " ++
   b01 l.isVisible ++ b01 l.isLocked ++ b01 l.isPosLocked ++ b01 l.hasAlpha ++ b01 l.isAlphaLocked ++ " " ++
   toString l.transparency ++ " " ++ toString l.offX ++ " " ++ toString l.offY ++ " " ++
